@@ -11,6 +11,7 @@ import (
 	"k8s.io/apimachinery/pkg/types"
 	"k8s.io/utils/pointer"
 
+	executiongroup "github.com/furiko-io/furiko/apis/execution"
 	execution "github.com/furiko-io/furiko/apis/execution/v1alpha1"
 	"github.com/furiko-io/furiko/pkg/execution/taskexecutor/podtaskexecutor"
 	"github.com/furiko-io/furiko/pkg/execution/tasks"
@@ -171,7 +172,7 @@ func (m *mJob) obj() *execution.Job {
 		rj.Annotations = map[string]string{jobutil.LabelKeyAdmissionErrorMessage: "refused"}
 	}
 	if m.Finalizer {
-		rj.Finalizers = []string{"execution.furiko.io/delete-dependents"}
+		rj.Finalizers = []string{executiongroup.DeleteDependentsFinalizer}
 	}
 	rj.DeletionTimestamp = mtp(m.Deletion)
 	rj.Status.StartTime = mtp(m.Start)
@@ -208,7 +209,7 @@ func (m *mJob) podObj(p mPod) *corev1.Pod {
 	pod.Status.Phase = corev1.PodPhase(p.Phase)
 	pod.Status.StartTime = mtp(p.StatusStart)
 	if p.Scheduled {
-		pod.Spec.NodeName = "node1"
+
 		pod.Status.Conditions = []corev1.PodCondition{{Type: corev1.PodScheduled, Status: corev1.ConditionTrue}}
 	}
 	cs := corev1.ContainerStatus{Name: "c"}
